@@ -77,6 +77,9 @@ let judges : (string * (Gsext.sx -> Gsext.verdict)) list = [
   "C17", Gsext.judge_C17;
   "render17", Gsext.render17;
   "C19", Gsext.judge_C19;
+  "C13", Gsext.judge_C13;
+  "render13", Gsext.render13;
+  "C18", Gsext.judge_C18;
   "C20o", Gsext.judge_C20o;
   "C20m", Gsext.judge_C20m;
   "C20e", Gsext.judge_C20e;
